@@ -8,8 +8,9 @@ import collections, os, re, subprocess
 from ..modules import REGS, C05CONSTSAMPLES
 from .. import core
 
-GO_FILES = ["c05.go", "c05gen.go", "c05asm.go", "c05emit.go", "c05intel.go", "c05gen_constsamples.go"]
-PROPS = ["AvoVerif.Props.C05", "AvoVerif.Props.C05Tables", "AvoVerif.Props.C05Build", "AvoVerif.Props.C05Judge", "AvoVerif.Props.C05Line"]
+GO_FILES = ["c05.go", "c05gen.go", "c05derive.go", "c05asm.go", "c05emit.go", "c05intel.go", "c05gen_constsamples.go"]
+PROPS = ["AvoVerif.Props.C05", "AvoVerif.Props.C05Tables", "AvoVerif.Props.C05Build", "AvoVerif.Props.C05Judge", "AvoVerif.Props.C05Line",
+         "AvoVerif.Props.C06Classes", "AvoVerif.Props.C05Class"]
 
 
 def run(ctx):
@@ -36,7 +37,8 @@ def run(ctx):
     if ctx.tier == "thorough":
         ctx.leanchecker(PROPS)
 
-    nontrivial = lambda req, resp: req.startswith("accept-asm") or req.startswith("asm-text m:") or req.startswith("asm-text i:")
+    nontrivial = lambda req, resp: req.startswith("accept-asm") or req.startswith("asm-text m:") or req.startswith("asm-text i:") \
+        or req.startswith("accept-class") or req.startswith("opclass")
     tags = []
     if ctx.replay:
         ctx.differential("c05", 0, nontrivial=nontrivial, max_report=10 ** 6)
@@ -60,7 +62,15 @@ def run(ctx):
 
     ctx.coverage["rule"] = (
         "quick: EVERY row of the compiled form table once (12 025) + 2000 further instances spread over the opcodes + per operand "
-        "type 16-48 well-typed instances and 10 near misses aimed at that operand; thorough: every form x 12 + every form x 8 under "
+        "type 16-48 well-typed instances and 10 near misses aimed at that operand + per operand type x3 (thorough x12) the whole catalogue "
+        "of one-attribute changes of a member of the class (harness/c05derive.go: memory operands with base absent / 32- / 16- / 8-bit / "
+        "vector / opmask / pseudo, index absent / general purpose / vector of each width / opmask / pseudo / SP, scale 0 or 3, symbol "
+        "toggled, displacement beyond 32 bits, a register or constant instead; registers of every other width and kind, the other views "
+        "and same-width neighbours of the fixed registers; constants of every other type, the first value outside the range, a relative "
+        "offset or register instead; branch targets just outside the 8-bit range, a label, operands of another shape): each member and "
+        "each changed operand is put to the real class predicate (`opclass`, EXACT against Model/Instr.OpClass.holds, characterised "
+        "declaratively by holds_iff_spec) and — unless the kind stays inside the class by design and has its own stream malformed:*/shape:* "
+        "— to the constructor; what the constructor accepts is assembled and judged like any other instruction; thorough: every form x 12 + every form x 8 under "
         "a second seed + per-type floors x 4. Each row is exercised through the constructor whose form range contains it "
         "(x86.VerifOpcodeForms), whatever opcode the row names. Operands boundary-biased (immediates 0, 1, 2^(n-1)-1, 2^(n-1), 2^n-1, "
         "-1, -2^(n-1) in signed and unsigned constant types; every physical register of each class incl. SP/BP/R12/R13 as base, "
@@ -74,7 +84,9 @@ def run(ctx):
         "given; constants: any spelling that the assembler reads as the same integer; the line: opcode.suffixes, blanks, operands "
         "separated by commas outside parentheses), accept-asm (Lean's judge, sound for `Agrees` by judgeO_sound: assembler accepted; "
         "mnemonic is the named operation; every register is the same hardware register and width; base, index, scale, displacement, "
-        "relocation target and access width equal; immediate as extended by the CPU equals the constant). Side streams: near-miss "
+        "relocation target and access width equal; immediate as extended by the CPU equals the constant), accept-class (every operand "
+        "of every accepted instruction is a member, by the Lean model of the class predicates, of the class the matched form names at "
+        "its position: classErr_sound; a vm* position holds a full VSIB reference: class_vm_operand). Side streams: near-miss "
         "operands incl. a valid call followed by a same-width neighbour of a fixed register (constructor must reject, or the "
         "instruction is judged like any other), malformed memory references, accepted operand shapes whose text the assembler reads "
         "differently (labels/parameters named like registers, FP/SB without symbol, symbol on a hardware base, non-identifier symbol "
@@ -139,6 +151,18 @@ FLOORS = {
     "stream_shape": 40, "stream_malformed": 40, "stream_hivec": 10, "stream_k0mask": 2,
     "padded_block": 400,             # instruction lines printed in a block with a longer opcode (goasm.flush padding)
     "x86asm_width_available": 300,   # access width confirmed by the second decoder
+    # systematically derived one-attribute near misses (harness/c05derive.go): every operand type x every kind of its
+    # catalogue, put to the real predicate (`opclass`, exact against the Lean model) and, routed "asm", to the constructor
+    "derived_types": 37, "derived_pairs_total": 500, "derived_pairs_through_ctor": 400,
+    "opclass_lines": 1200, "opclass_member": 100, "opclass_in": 300, "opclass_out": 900,
+    "class_judged": 11000,           # accepted instructions whose operands the Lean class model judged (accept-class)
+    "derived:vm:no-index": 15, "derived:vm:no-base": 15, "derived:vm:index-gp64": 15, "derived:vm:index-k": 15,
+    "derived:vm:index-xmm": 15, "derived:vm:index-ymm": 15, "derived:vm:index-zmm": 15, "derived:vm:base-gp32": 15,
+    "derived:vm:base-pseudo": 15, "derived:vm:base-xmm": 15,
+    "derived:m:no-base": 20, "derived:m:no-index": 20, "derived:m:index-xmm": 20, "derived:m:index-k": 20, "derived:m:base-xmm": 20,
+    "derived:gp:gp64": 8, "derived:gp:xmm": 10, "derived:vec:gp64": 8, "derived:fixed:sibling": 15, "derived:imm:over": 8,
+    "derived:rel:over": 3, "derived:const:val-above": 8,
+    "tried_nearmiss:no-index": 30, "tried_nearmiss:index-gp64": 30, "tried_nearmiss:no-base": 35, "tried_nearmiss:index-xmm": 35,
 }
 
 
@@ -153,6 +177,10 @@ def _floors(ctx, verdicts):
         if k.startswith("tried_"):
             st[k] = st.get("accepted_" + k[6:], 0) + st.get("rejected_" + k[6:], 0)
     low = {k: (st.get(k, 0), v) for k, v in FLOORS.items() if st.get(k, 0) < v}
+    if st.get("derived_pairs_tried", 0) != st.get("derived_pairs_total", -1):
+        low["derived_pairs_tried"] = (st.get("derived_pairs_tried", 0), f'= derived_pairs_total {st.get("derived_pairs_total")}')
+    if st.get("derived_type_without_catalogue", 0):
+        low["derived_type_without_catalogue"] = (st.get("derived_type_without_catalogue"), 0)
     if st.get("opcodes_covered", 0) != st.get("opcodes_total", -1):
         low["opcodes_covered"] = (st.get("opcodes_covered", 0), st.get("opcodes_total", -1))
     # a well-typed instance of a form that the constructor REJECTS is dropped by the generator (C06 judges completeness):
